@@ -72,8 +72,22 @@ func genXm(r *core.Rand, pr Profile, sec bool, mayClose bool, seqMode bool) stri
 		tf = "abs"
 	}
 	kv = append(kv, "tf="+tf)
-	rc := r.Chance(1, 8) && mayClose
-	kv = append(kv, "rc="+b01(rc))
+	// protocol version and Connection tokens of the client: what decides Request.Close
+	pv := "11"
+	if r.Chance(1, 5) {
+		pv = "10"
+	}
+	var ct []string
+	switch {
+	case !mayClose:
+		ct = pickConn(r, pv, true)
+	case r.Chance(1, 8):
+		ct = []string{"close"}
+	case pv == "10" || r.Chance(1, 3):
+		ct = pickConn(r, pv, pv == "10" && r.Chance(2, 3)) // most HTTP/1.0 clients generated ask for keep-alive
+	}
+	kv = append(kv, "pv="+pv, "ct="+hexLines(ct))
+	core.Count("wire:client-" + pv + "-" + closeWord(askedClose(pv, ct)))
 	hs := r.Range(1, 9999)
 	kv = append(kv, fmt.Sprintf("hs=%d", hs))
 	if pr.Rich && r.Chance(1, 2) {
@@ -88,7 +102,14 @@ func genXm(r *core.Rand, pr Profile, sec bool, mayClose bool, seqMode bool) stri
 	if m == "POST" || m == "PUT" || m == "PATCH" || (m == "DELETE" && r.Bool()) {
 		rb = bodyLen(r, pr.BigBodies)
 	}
-	kv = append(kv, fmt.Sprintf("rb=%d", rb), "rf="+r.Pick("cl", "ch"))
+	rf := r.Pick("cl", "ch")
+	if pv == "10" {
+		rf = "cl"
+	}
+	if seqMode && rb > 0 && r.Chance(1, 5) { // an upload that can be gated on an early answer (early.go)
+		rb, rf = r.Pick2(20000, 65536), "cl"
+	}
+	kv = append(kv, fmt.Sprintf("rb=%d", rb), "rf="+rf)
 	rq, rs := "pass", "pass"
 	if pr.Modifiers {
 		switch r.Intn(12) {
@@ -121,6 +142,7 @@ func genXm(r *core.Rand, pr Profile, sec bool, mayClose bool, seqMode bool) stri
 		}
 	}
 	kv = append(kv, "rq="+rq, "rs="+rs)
+	kv = append(kv, errKinds(r, rq, rs)...)
 	o := "ok"
 	if pr.Faults {
 		switch r.Intn(5) {
@@ -137,12 +159,28 @@ func genXm(r *core.Rand, pr Profile, sec bool, mayClose bool, seqMode bool) stri
 	}
 	ob := bodyLen(r, pr.BigBodies)
 	of := r.Pick("cl", "cl", "ch", "ch", "close")
-	oc := r.Chance(1, 10)
-	if !mayClose {
-		oc = false
-		if of == "close" {
+	// protocol version and Connection tokens of the origin: what decides Response.Close
+	opv := "11"
+	if r.Chance(1, 6) {
+		opv = "10"
+		if of == "ch" {
+			of = "cl"
+		}
+	}
+	if !mayClose && of == "close" {
+		of = "cl"
+		if opv == "11" {
 			of = "ch"
 		}
+	}
+	var oct []string
+	switch {
+	case !mayClose:
+		oct = pickConn(r, opv, true)
+	case r.Chance(1, 10):
+		oct = []string{"close"}
+	case opv == "10" || r.Chance(1, 4):
+		oct = pickConn(r, opv, opv == "10" && r.Chance(2, 3))
 	}
 	gz := r.Chance(1, 8)
 	switch o {
@@ -152,7 +190,6 @@ func genXm(r *core.Rand, pr Profile, sec bool, mayClose bool, seqMode bool) stri
 			fk = r.Pick("refuse", "dtimeout")
 		}
 		kv = append(kv, "fk="+fk, fmt.Sprintf("k=%d", r.Range(1, 60)))
-		oc = false
 	case "trunc":
 		if of == "close" {
 			of = "cl"
@@ -168,15 +205,58 @@ func genXm(r *core.Rand, pr Profile, sec bool, mayClose bool, seqMode bool) stri
 			st = 200
 		}
 		kv = append(kv, fmt.Sprintf("k=%d", r.Intn(ob)))
-		oc = false
 		gz = false
+		if askedClose(opv, oct) { // the cut ends the connection by itself; keep the close mark the client's alone
+			opv, oct = "11", nil
+		}
 	}
-	rcl := o == "ok" && (oc || (of == "close" && !bodiless(m, st)))
-	kv = append(kv, "o="+o, fmt.Sprintf("st=%d", st), fmt.Sprintf("ob=%d", ob), "of="+of, "oc="+b01(oc), "gz="+b01(gz), "rcl="+b01(rcl))
+	kv = append(kv, "o="+o, fmt.Sprintf("st=%d", st), fmt.Sprintf("ob=%d", ob), "of="+of, "opv="+opv, "oct="+hexLines(oct), "gz="+b01(gz))
+	if o == "ok" {
+		core.Count("wire:origin-" + opv + "-" + of + "-" + closeWord(askedClose(opv, oct)))
+		if pv == "10" && !askedClose(pv, ct) && of == "ch" && !bodiless(m, st) {
+			core.Count("wire:http10-keepalive-client-gets-unknown-length-response")
+		}
+	}
+	// an origin that answers before it has read the whole upload, the client still sending
+	// (the upload must be larger than the buffers on the way - 4 KiB in the proxy's reader and in the
+	// transport's writer - or its beginning never reaches the origin before its end does)
+	if seqMode && o == "ok" && (rb >= earlyMinChunkedUpload || (rb >= earlyMinUpload && rf == "cl")) && ob >= 2 && !bodiless(m, st) && rq == "pass" && rs == "pass" && r.Chance(2, 3) {
+		kv = append(kv, fmt.Sprintf("ea=%d", r.Pick2(1, 1024)))
+		core.Count("early:generated")
+	}
 	if sec {
 		kv = append(kv, "sec=1")
 	}
 	return strings.Join(kv, " ")
+}
+
+func closeWord(c bool) string {
+	if c {
+		return "close"
+	}
+	return "keep"
+}
+
+// errKinds picks the error values the scripted modifiers return (errs.go).
+func errKinds(r *core.Rand, rq, rs string) []string {
+	var kv []string
+	if rq == "err" || rq == "errskip" {
+		k := ErrKinds[r.Intn(len(ErrKinds))]
+		kv = append(kv, "ek="+k)
+		core.Count("moderr:req-" + k)
+	}
+	if rs == "err" {
+		k := ErrKinds[r.Intn(len(ErrKinds))]
+		kv = append(kv, "sek="+k)
+		core.Count("moderr:res-" + k)
+	}
+	return kv
+}
+
+// genConnect emits one MITM CONNECT item with scripted modifier behaviours.
+func genConnect(r *core.Rand, pr Profile, tls bool) string {
+	rq, rs := genMods(r, pr)
+	return strings.TrimSpace(fmt.Sprintf("cmitm tls=%s rq=%s rs=%s %s", b01(tls), rq, rs, strings.Join(errKinds(r, rq, rs), " ")))
 }
 
 func genMods(r *core.Rand, pr Profile) (string, string) {
@@ -201,6 +281,14 @@ func genMods(r *core.Rand, pr Profile) (string, string) {
 // GenCase emits one connection scenario.
 func GenCase(r *core.Rand, pr Profile) []string {
 	var ops []string
+	if pr.Rich && r.Chance(1, 25) {
+		// the model's keep-alive / framing functions against the real net/http, without a proxy
+		core.Count("wire:differential-op-cases")
+		return GenWireOps(r, 12)
+	}
+	if r.Chance(1, 12) {
+		return genEarlyCase(r, pr)
+	}
 	n := r.Range(1, 6)
 	tunnel := pr.Tunnels && r.Chance(2, 3)
 	mode := "seq"
@@ -214,7 +302,7 @@ func GenCase(r *core.Rand, pr Profile) []string {
 			listener = "shaped"
 		case 1, 2:
 			if pr.Tunnels { // transparent TLS listener: decrypted from the first byte
-				listener = "tls"
+				listener = r.Pick("tls", "tls", "tlsmitm", "shapedtls")
 			}
 		case 3:
 			rt = " rt=clone" // a RoundTripper wrapper that sends a clone of the request
@@ -228,14 +316,34 @@ func GenCase(r *core.Rand, pr Profile) []string {
 			ops = append(ops, "end")
 			return ops
 		}
-		ops = append(ops, "conn mode="+mode+" listener="+listener+" shutdown=0"+rt)
+		ops = append(ops, "conn mode="+mode+" listener="+listener+" shutdown=0"+rt+tflip(r, listener))
 		for i := 0; i < n; i++ {
-			ops = append(ops, genXm(r, pr, listener == "tls", (mode != "pipe" && mode != "half") || i == n-1, mode == "seq" || mode == "dribble"))
+			ops = append(ops, genXm(r, pr, listenerTLS(listener), (mode != "pipe" && mode != "half") || i == n-1, mode == "seq" || mode == "dribble"))
 		}
 		ops = append(ops, "end")
 		return ops
 	}
-	switch r.Intn(4) {
+	switch r.Intn(5) {
+	case 4: // nested: a transparent-TLS or plain listener, CONNECT inside CONNECT, cleartext or TLS at each level
+		listener := r.Pick("tlsmitm", "tlsmitm", "shapedtlsmitm", "mitm", "shapedmitm")
+		secure := listenerTLS(listener)
+		ops = append(ops, "conn mode=seq listener="+listener+" shutdown=0"+tflip(r, listener))
+		if r.Chance(1, 3) {
+			ops = append(ops, genX(r, pr, secure, true))
+		}
+		depth := 1
+		if r.Chance(1, 2) {
+			depth = r.Range(2, 3)
+		}
+		for d := 0; d < depth; d++ {
+			inner := r.Chance(3, 4)
+			ops = append(ops, genConnect(r, pr, inner))
+			secure = secure || inner
+			for i := r.Range(1, 3); i > 0; i-- {
+				ops = append(ops, genX(r, pr, secure, true))
+			}
+		}
+		core.Count(fmt.Sprintf("tls:nested-depth-%d-%s", depth, listener))
 	case 0: // blind CONNECT
 		ops = append(ops, "conn mode=seq listener=plain shutdown=0")
 		pre := r.Intn(3)
@@ -243,7 +351,7 @@ func GenCase(r *core.Rand, pr Profile) []string {
 			ops = append(ops, genX(r, pr, false, true))
 		}
 		rq, rs := genMods(r, pr)
-		ops = append(ops, fmt.Sprintf("cblind dial=%s dk=%s rq=%s rs=%s", b01(r.Chance(1, 2)), r.Pick("refuse", "timeout", "eof"), rq, rs))
+		ops = append(ops, strings.TrimSpace(fmt.Sprintf("cblind dial=%s dk=%s rq=%s rs=%s %s", b01(r.Chance(1, 2)), r.Pick("refuse", "timeout", "eof"), rq, rs, strings.Join(errKinds(r, rq, rs), " "))))
 		for i := 0; i < r.Intn(3); i++ {
 			ops = append(ops, genX(r, pr, false, true))
 		}
@@ -256,29 +364,83 @@ func GenCase(r *core.Rand, pr Profile) []string {
 			ops = append(ops, fmt.Sprintf("cmitm tls=%s rq=pass rs=%s", b01(r.Bool()), r.Pick("pass", "err")))
 			break
 		}
-		ops = append(ops, "conn mode=seq listener="+r.Pick("mitm", "mitm", "shapedmitm")+" shutdown=0")
-		rq, rs := genMods(r, pr)
-		ops = append(ops, fmt.Sprintf("cmitm tls=0 rq=%s rs=%s", rq, rs))
+		listener := r.Pick("mitm", "mitm", "shapedmitm", "tlsmitm")
+		ops = append(ops, "conn mode=seq listener="+listener+" shutdown=0"+tflip(r, listener))
+		ops = append(ops, genConnect(r, pr, false))
 		for i := 0; i < n; i++ {
-			ops = append(ops, genX(r, pr, false, true))
+			ops = append(ops, genX(r, pr, listenerTLS(listener), true))
 		}
 	default: // MITM with TLS inside
-		ops = append(ops, "conn mode=seq listener="+r.Pick("mitm", "mitm", "shapedmitm")+" shutdown=0")
+		listener := r.Pick("mitm", "mitm", "shapedmitm", "tlsmitm")
+		ops = append(ops, "conn mode=seq listener="+listener+" shutdown=0"+tflip(r, listener))
 		pre := 0
 		if r.Chance(1, 4) {
 			pre = 1
 		}
 		for i := 0; i < pre; i++ {
-			ops = append(ops, genX(r, pr, false, true))
+			ops = append(ops, genX(r, pr, listenerTLS(listener), true))
 		}
-		rq, rs := genMods(r, pr)
-		ops = append(ops, fmt.Sprintf("cmitm tls=1 rq=%s rs=%s", rq, rs))
+		ops = append(ops, genConnect(r, pr, true))
 		for i := 0; i < n; i++ {
 			ops = append(ops, genX(r, pr, true, true))
 		}
 	}
 	ops = append(ops, "end")
 	return ops
+}
+
+// genEarlyCase: a sequential connection on which origins answer before the upload has ended
+// (early.go), with ordinary exchanges in between; the last exchange may end the connection.
+func genEarlyCase(r *core.Rand, pr Profile) []string {
+	listener := r.Pick("plain", "plain", "plain", "shaped")
+	if pr.Tunnels && r.Chance(1, 3) {
+		listener = r.Pick("tls", "shapedtls")
+	}
+	sec := listenerTLS(listener)
+	ops := []string{"conn mode=seq listener=" + listener + " shutdown=0"}
+	n := r.Range(1, 3)
+	for i := 0; i < n; i++ {
+		last := i == n-1
+		if r.Chance(1, 4) {
+			ops = append(ops, genXm(r, pr, sec, last, true))
+			continue
+		}
+		rb := r.Pick2(20000, 65536)
+		if pr.BigBodies && r.Chance(1, 3) {
+			rb = 1<<20 + r.Intn(1<<20)
+		}
+		rf := "cl"
+		if rb >= earlyMinChunkedUpload && r.Bool() {
+			rf = "ch"
+		}
+		of := r.Pick("cl", "ch", "ch")
+		if last && r.Chance(1, 5) {
+			of = "close"
+		}
+		tf := r.Pick("origin", "abs")
+		if sec && tf == "abs" && r.Bool() {
+			tf = "abss"
+		}
+		kv := []string{"x", "m=" + r.Pick("POST", "PUT", "PATCH"), "tf=" + tf, "pv=11", "ct=-",
+			fmt.Sprintf("hs=%d", r.Range(1, 9999)), fmt.Sprintf("hdr=%d", r.Intn(4)), fmt.Sprintf("ohdr=%d", r.Intn(3)),
+			fmt.Sprintf("rb=%d", rb), "rf=" + rf, "rq=pass", "rs=pass", "o=ok", "st=" + r.Pick("200", "200", "201", "404", "500"),
+			fmt.Sprintf("ob=%d", r.Pick2(r.Range(2, 600), r.Pick2(4096, 20000))), "of=" + of, "opv=11", "oct=-", "gz=0",
+			fmt.Sprintf("ea=%d", r.Pick2(1, 1024))}
+		if sec {
+			kv = append(kv, "sec=1")
+		}
+		core.Count("early:generated")
+		ops = append(ops, strings.Join(kv, " "))
+	}
+	return append(ops, "end")
+}
+
+// tflip: which of the two TLS flavours the odd layers of the connection get (tlsid.go).
+func tflip(r *core.Rand, listener string) string {
+	if (listenerTLS(listener) || strings.Contains(listener, "mitm")) && r.Bool() {
+		return " tflip=1"
+	}
+	return ""
 }
 
 // Nontrivial: at least two requests were served on the connection or a non-pass behaviour occurred.
